@@ -282,6 +282,28 @@ def to_case(v):
     return family.Case(src.encode('utf-8'), 'C', cfgd, {'kind': 'generated', 'layout_seed': lseed, 'cfg_seed': cseed})
 
 
+def import_shapes():
+    """(name, language, source): blocks of 2..4 import / using lines over component names that are prefixes of one another"""
+    import itertools
+    leafs = ['List', 'ListIterator', 'Map', 'MapEntry', 'Lis', 'list']
+    pk = ['java.util', 'java.uti', 'java.util.concurrent']
+    names = [p_ + '.' + l for p_ in pk[:1] for l in leafs] + [pk[1] + '.List', pk[2] + '.Map', 'java.util']
+    blocks = []
+    for k in (2, 3):
+        for combo in itertools.combinations(range(len(names)), k):
+            blocks.append([names[i] for i in combo])
+    blocks += [[names[0], names[1], names[0]], [names[1], names[0], names[1], names[2]], list(reversed(names))]
+    out = []
+    for bi, b in enumerate(blocks):
+        for order in (b, list(reversed(b))) if b != list(reversed(b)) else (b,):
+            tag = '%d%s' % (bi, 'r' if order is not b else '')
+            out.append(('imp-java-' + tag, 'JAVA', ''.join('import %s;\n' % n for n in order) + '\nclass A { int x; }\n'))
+            out.append(('imp-d-' + tag, 'D', ''.join('import %s;\n' % n.replace('java', 'std') for n in order) + '\nint x;\n'))
+            out.append(('imp-cs-' + tag, 'CS', ''.join('using %s;\n' % n.replace('java', 'System') for n in order)
+                        + '\nnamespace N { class A { int x; } }\n'))
+    return out
+
+
 def main(ctx):
     quick = ctx.tier == 'quick'
     rng = random.Random(core.subseed(ctx.useed, 'c04'))
@@ -336,6 +358,18 @@ def main(ctx):
                    {'mod_add_long_ifdef_endif_comment': '3', 'mod_add_long_ifdef_else_comment': '3'}):
             for lang in ('C', 'CPP'):
                 cases.append(family.Case(src.encode(), lang, dict(ic), {'kind': 'ifdef-shape', 'file': 'shape:' + name}))
+    # enumerated import / using blocks x the sort options: names that are prefixes of their neighbours, exact duplicates, names that
+    # differ in the package part only - every line of the input must survive sorting (duplicates may go when de-duplication is on)
+    nimp = 0
+    for name, lang, src in import_shapes():
+        for sc in ({}, {'mod_sort_incl_import_grouping_enabled': 'true'},
+                   {'mod_sort_incl_import_grouping_enabled': 'true', 'mod_sort_incl_import_ignore_extension': 'true'},
+                   {'mod_sort_case_sensitive': 'true'}, {'mod_sort_incl_import_prioritize_filename': 'true'}):
+            cd = dict(sc)
+            cd['mod_sort_using' if lang in ('CS', 'VALA') else 'mod_sort_import'] = 'true'
+            cases.append(family.Case(src.encode(), lang, cd, {'kind': 'import-shape', 'file': 'shape:' + name}))
+            nimp += 1
+    ctx.extra['import_shape_cases'] = nimp
     raw = family.explore(ctx, judge, cases)
     raw += family.hyp_explore(ctx, judge, make_strategy, to_case, shards=16, examples=(250 if quick else 5000))
     family.triage(ctx, judge, raw)
